@@ -41,13 +41,6 @@ Fixpoint dec_value (fuel : nat) (x : sexp) : option value :=
   | O => None
   | S f =>
       match x with
-      | SList [h; a] =>
-          if sym_is "b" h then option_map VBool (as_bool a)
-          else if sym_is "s" h then option_map VBytes (as_bytes a)
-          else if sym_is "i" h then option_map VInt (as_Z a)
-          else if sym_is "v4" h then option_map (fun z => VIp (V4 z)) (as_Z a)
-          else if sym_is "v6" h then option_map (fun z => VIp (V6 z)) (as_Z a)
-          else None
       | SList (h :: t :: rest) =>
           if sym_is "arr" h then
             t' <-- dec_ty FUEL t ;; l <-- option_map_all (dec_value f) rest ;; Some (VArray t' l)
@@ -58,7 +51,17 @@ Fixpoint dec_value (fuel : nat) (x : sexp) : option value :=
                                             | _ => None
                                             end) rest ;;
             Some (VMap t' l)
-          else None
+          else
+            match rest with
+            | [] =>
+                if sym_is "b" h then option_map VBool (as_bool t)
+                else if sym_is "s" h then option_map VBytes (as_bytes t)
+                else if sym_is "i" h then option_map VInt (as_Z t)
+                else if sym_is "v4" h then option_map (fun z => VIp (V4 z)) (as_Z t)
+                else if sym_is "v6" h then option_map (fun z => VIp (V6 z)) (as_Z t)
+                else None
+            | _ => None
+            end
       | _ => None
       end
   end.
